@@ -23,8 +23,23 @@ type netT struct {
 	p    *chaincfg.Params
 }
 
+// customNet is a network registered at run time through chaincfg.Register (the registry is part of the
+// property: "every registered network"); its prefixes collide with no shipped network.
+var customNet = chaincfg.Params{
+	Name: "verifnet", Net: 0x76657266, Bech32HRPSegwit: "vn",
+	PubKeyHashAddrID: 0x30, ScriptHashAddrID: 0x32, PrivateKeyID: 0xb0,
+	HDPrivateKeyID: [4]byte{0x01, 0x9d, 0x9c, 0xfe}, HDPublicKeyID: [4]byte{0x01, 0x9d, 0xa4, 0x62},
+}
+
+func init() {
+	if err := chaincfg.Register(&customNet); err != nil {
+		panic(err)
+	}
+}
+
 func nets() []netT {
 	return []netT{
+		{"verifnet", &customNet},
 		{"mainnet", &chaincfg.MainNetParams}, {"testnet3", &chaincfg.TestNet3Params},
 		{"testnet4", &chaincfg.TestNet4Params}, {"signet", &chaincfg.SigNetParams},
 		{"regtest", &chaincfg.RegressionNetParams}, {"simnet", &chaincfg.SimNetParams},
@@ -473,14 +488,14 @@ func genAddr(g *core.Gen) {
 		}
 	}
 	// decode: every version 0..17 x program lengths x both checksum variants x every hrp, on every default net
-	hrps := []string{"bc", "tb", "bcrt", "sb", "BC", "TB", "xy", "b", "bc1", "tb1tb", "ltc"}
+	hrps := []string{"bc", "tb", "bcrt", "sb", "vn", "VN", "BC", "TB", "xy", "b", "bc1", "tb1tb", "ltc", "v"}
 	for ver := 0; ver <= 17; ver++ {
 		for _, l := range []int{0, 1, 2, 3, 16, 19, 20, 21, 31, 32, 33, 39, 40, 41} {
 			for _, m := range []bool{false, true} {
 				for k := 0; k < g.N(1, 6); k++ {
 					hrp := hrps[r.Intn(len(hrps))]
 					if k == 0 {
-						hrp = []string{"bc", "tb", "bcrt", "sb"}[r.Intn(4)]
+						hrp = []string{"bc", "tb", "bcrt", "sb", "vn"}[r.Intn(5)]
 					}
 					prog := r.Bytes(l)
 					if l == 2 && r.Bool() {
@@ -520,14 +535,14 @@ func genAddr(g *core.Gen) {
 	for _, prog := range [][]byte{{0x4e, 0x73}, {0x4e, 0x74}, {0x4f, 0x73}, {0x4e, 0x00}, {0x73, 0x4e}, {0x4e}, {0x4e, 0x73, 0x00}} {
 		for ver := 0; ver <= 2; ver++ {
 			for _, m := range []bool{false, true} {
-				hrp := []string{"bc", "tb", "bcrt", "sb"}[r.Intn(4)]
+				hrp := []string{"bc", "tb", "bcrt", "sb", "vn"}[r.Intn(5)]
 				g.Case("dec-p2a-near", true, "C16 dec "+ns[r.Intn(len(ns))].name+" "+hx(segwitString(r, hrp, byte(ver), prog, m)))
 			}
 		}
 	}
 	// padding violations inside otherwise valid segwit strings
 	for k := 0; k < g.N(60, 1000); k++ {
-		hrp := []string{"bc", "tb", "bcrt", "sb"}[r.Intn(4)]
+		hrp := []string{"bc", "tb", "bcrt", "sb", "vn"}[r.Intn(5)]
 		ver := byte(r.Intn(2))
 		prog := r.Bytes([]int{20, 32}[r.Intn(2)])
 		conv, _ := bech32.ConvertBits(prog, 8, 5, true)
